@@ -58,7 +58,7 @@ func mkSpec(kind string, params any) explore.Spec {
 func deadlineFor(tier string) time.Duration {
 	secs := 150.0
 	if tier == "thorough" {
-		secs = 2400
+		secs = 6000
 	}
 	if s := os.Getenv("VERIF_DEADLINE_S"); s != "" {
 		if v, err := strconv.ParseFloat(s, 64); err == nil {
